@@ -265,38 +265,164 @@ _RE_INSERTED2 = re.compile(rb"(?i)inserted[^0-9\n]*?([0-9]+)")
 _RE_READFAIL = re.compile(rb"Failed to read file (.*?): ")
 
 
+# Fallbacks for a reworded report. Only the lines the repository's own tests pin down ("Total missing references (all files): N",
+# "Num. inserted reference(s): N") are taken as fixed; a location may be printed as "... file F, line L, column C" or compiler-style
+# "F:L:C: ...", with F absolute or relative to the working / configuration / source directory.
+_RE_LOC_WORDS = re.compile(rb"(?i)^(.*?)[,:;]?\s*\(?\bline\s*[:=]?\s*([0-9]+)\s*[,;:]?\s*\bcol(?:umn)?\.?\s*[:=]?\s*([0-9]+)")
+_RE_LOC_COLONS = re.compile(rb"^(.*?):([0-9]+):([0-9]+)(?::|\s|$)")
+_RE_UNUSABLE_WORD = re.compile(rb"(?i)unusable|not usable|cannot be used|invalid")
+_RE_READFAIL_WORD = re.compile(rb"(?i)\b(?:un)?read|utf-?8|\btext\b|decod|\bskip")      # (not the "read" in "breadlog")
+_STRIP = " \t'\"`:,;()[]<>"
+
+
+def _norm(p):
+    p = os.path.normpath(p)
+    return p[2:] if p.startswith("./") else p
+
+
 class Report:
-    def __init__(self, out):
+    """What a run printed. `names`: the files of the tree, relative to the source directory `src` (absolute path, optional); when given,
+    every reported file name is resolved to one of them (entries that resolve to none keep the text as printed), whatever form it was
+    printed in. `err`: the run's stderr, searched for read-failure messages as well. `bases` (instead of `names`, while the tree still
+    exists): strict resolution for checks about *which* files are looked at - a printed name becomes an absolute path only if something
+    exists under it, as it stands or below the first of the given directories where it does; nothing is matched by its ending."""
+
+    def __init__(self, out, names=None, src=None, err=b"", bases=None):
         self.missing = []   # (file, line, col)
         self.unusable = []
         self.file_totals = {}
         self.total = None
         self.inserted = None
         self.read_failures = []
-        for line in out.split(b"\n"):
+        self.names = set(_norm(n) for n in names) if names is not None else None
+        self._by_base = {}
+        for n in self.names or ():
+            self._by_base.setdefault(os.path.basename(n), []).append(n)
+        self.bases = [os.path.normpath(b) for b in bases] if bases is not None else None
+        self.srcs = []
+        if src:
+            self.srcs = [os.path.normpath(src)]
+            try:
+                rp = os.path.realpath(src)
+                if rp not in self.srcs:
+                    self.srcs.append(rp)
+            except OSError:
+                pass
+        lines = out.split(b"\n")
+        primary_loc = False
+        loc_lines = set()
+        for i_, line in enumerate(lines):
+            loc_lines.add(i_)
             m = _RE_MISSING.search(line)
             if m:
-                self.missing.append((m.group(1).decode("utf-8", "surrogateescape"), int(m.group(2)), int(m.group(3))))
+                self.missing.append((self._name(m.group(1)), int(m.group(2)), int(m.group(3))))
+                primary_loc = True
                 continue
             m = _RE_UNUSABLE.search(line)
             if m:
-                self.unusable.append((m.group(1).decode("utf-8", "surrogateescape"), int(m.group(2)), int(m.group(3))))
+                self.unusable.append((self._name(m.group(1)), int(m.group(2)), int(m.group(3))))
+                primary_loc = True
                 continue
             m = _RE_TOTAL_FILE.search(line)
             if m:
-                self.file_totals[m.group(1).decode("utf-8", "surrogateescape")] = int(m.group(2))
+                self.file_totals[self._name(m.group(1))] = int(m.group(2))
                 continue
-            m = _RE_TOTAL_ALL.search(line) or _RE_TOTAL_ALL2.search(line)
+            m = _RE_TOTAL_ALL.search(line)
             if m:
                 self.total = int(m.group(1))
                 continue
-            m = _RE_INSERTED.search(line) or _RE_INSERTED2.search(line)
+            m = _RE_INSERTED.search(line)
             if m:
                 self.inserted = int(m.group(1))
                 continue
             m = _RE_READFAIL.search(line)
             if m:
-                self.read_failures.append(m.group(1).decode("utf-8", "surrogateescape"))
+                self.read_failures.append(self._name(m.group(1)))
+                continue
+            loc_lines.discard(i_)       # (a line none of the patterns spoke for)
+        if not primary_loc:
+            for i, line in enumerate(lines):
+                got = self._generic_location(line)
+                if got:
+                    loc_lines.add(i)
+                    (self.unusable if _RE_UNUSABLE_WORD.search(line) else self.missing).append(got)
+        if self.total is None:
+            for line in lines:
+                m = _RE_TOTAL_ALL2.search(line)
+                if m:
+                    self.total = int(m.group(1))
+        if self.inserted is None:
+            for line in lines:
+                m = _RE_INSERTED2.search(line)
+                if m:
+                    self.inserted = int(m.group(1))
+        if not self.read_failures and (self.names is not None or self.bases is not None):
+            for i, line in list(enumerate(lines)) + [(None, l) for l in err.split(b"\n")]:
+                if i in loc_lines or not _RE_READFAIL_WORD.search(line):
+                    continue
+                for tok in self._candidates(line):
+                    r = self._resolve_one(tok)
+                    if r is not None:
+                        self.read_failures.append(r)
+                        break
+
+    # -- file names ------------------------------------------------------------------------------
+    def _resolve_one(self, text):
+        c = _norm(text.strip(_STRIP)) if text.strip(_STRIP) else ""
+        if not c:
+            return None
+        if self.bases is not None:
+            if os.path.isabs(c):
+                return c if os.path.lexists(c) else None
+            for b in self.bases:
+                p = os.path.normpath(os.path.join(b, c))
+                if os.path.lexists(p):
+                    return p
+            return None
+        if self.names is None:
+            return None
+        if os.path.isabs(c):
+            for s_ in self.srcs:
+                if c.startswith(s_ + "/") and c[len(s_) + 1:] in self.names:
+                    return c[len(s_) + 1:]
+        elif c in self.names:
+            return c
+        best = None
+        for n in self._by_base.get(os.path.basename(c), ()):
+            if c.endswith("/" + n) and (best is None or len(n) > len(best)):
+                best = n
+        return best
+
+    def _candidates(self, raw):
+        """The text as a whole, then what follows each blank (a log prefix, or words before the name), longest first; then single words."""
+        t = raw.decode("utf-8", "surrogateescape")
+        out = [t] + [t[i + 1:] for i, ch in enumerate(t) if ch == " "]
+        return out + t.split()
+
+    def _name(self, raw):
+        t = raw.decode("utf-8", "surrogateescape")
+        if self.names is None and self.bases is None:
+            return t
+        r = self._resolve_one(t)
+        return r if r is not None else t
+
+    def _generic_location(self, line):
+        for rx in (_RE_LOC_WORDS, _RE_LOC_COLONS):
+            m = rx.search(line)
+            if not m:
+                continue
+            before = m.group(1)
+            if self.names is not None or self.bases is not None:
+                for cand in self._candidates(before)[:1 + before.count(b" ")]:
+                    r = self._resolve_one(cand)
+                    if r is not None:
+                        return (r, int(m.group(2)), int(m.group(3)))
+                continue
+            toks = [t.strip(_STRIP) for t in before.decode("utf-8", "surrogateescape").split()]
+            toks = [t for t in toks if "/" in t or "." in t]
+            if toks:
+                return (toks[-1], int(m.group(2)), int(m.group(3)))
+        return None
 
 
 # ------------------------------------------------------------------------------------------------
